@@ -38,7 +38,11 @@ def _run_local(prop, tier, seed, shard, nshards, only=None):
         if shard is not None and shard > 0 and getattr(sub, "shard0_only", False):
             continue
         t_sub = time.time()
-        H.run_sub(rec, sub, n, sub_seed * 31 + i, known, shrink_s, deadline)
+        try:
+            H.run_sub(rec, sub, n, sub_seed * 31 + i, known, shrink_s, deadline)
+        except H.HarnessError as e:
+            # keep violations found so far; a harness error only decides the exit code if nothing else did
+            rec.harness_errors = getattr(rec, "harness_errors", []) + [f"{sub.name}: {e}"]
         if sub.name in rec.sub:
             rec.sub[sub.name]["wall_s"] = round(rec.sub[sub.name].get("wall_s", 0) + time.time() - t_sub, 1)
     return rec
@@ -58,7 +62,7 @@ def cmd_run(args):
 
     if args.shard is not None:
         rec = _run_local(prop, tier, seed, args.shard, args.nshards, only)
-        out = {"dump": rec.dump(), "known": rec.known}
+        out = {"dump": rec.dump(), "known": rec.known, "harness_errors": getattr(rec, "harness_errors", [])}
         with open(args.out, "w") as fh:
             json.dump(out, fh, default=H._default)
         return 0
@@ -94,6 +98,8 @@ def cmd_run(args):
             with open(out) as fh:
                 d = json.load(fh)
             rec.merge(d["dump"])
+            if d.get("harness_errors"):
+                rec.harness_errors = getattr(rec, "harness_errors", []) + d["harness_errors"]
             for kn in d["known"]:
                 if not any(x["id"] == kn["id"] for x in rec.known):
                     rec.known.append(kn)
@@ -118,10 +124,15 @@ def cmd_run(args):
     for v in rec.violations:
         print(f"VIOLATION property={prop} replay={v['replay']} subcheck={v['subcheck']} "
               f"clause={v['clause']} :: {v['detail'][:300]}")
+    herr = getattr(rec, "harness_errors", [])
+    for h in herr:
+        print(f"HARNESS-ERROR property={prop} {h[:1500]}")
     print(f"[vk] {prop} tier={tier} seed={seed} evaluations={rec.evaluations} "
           f"distinct_nontrivial={len(rec.nontrivial)} violations={len(rec.violations)} "
           f"wall={wall:.1f}s")
-    return 1 if rec.violations else 0
+    if rec.violations:
+        return 1
+    return 2 if herr else 0
 
 
 def cmd_replay(args):
